@@ -135,7 +135,8 @@ class Gen:
                 sl6 = r.choice([l6, l6 + 1, 124, 126])
                 svc2 = tok6(mask("v6", a6 + r.randrange(1 << (128 - l6)), sl6), sl6)
         self.svc = (svc1, svc2)
-        ops.append("construct %s %s %s" % (svc1, svc2, "-" if r.random() < 0.8 else self.outs("upd")))
+        self.flags = default_flags(r) if r.random() < 0.15 else None
+        ops.append("construct %s %s %s%s" % (svc1, svc2, "-" if r.random() < 0.8 else self.outs("upd"), (" " + self.flags) if self.flags else ""))
         ops.append("start")
         pending_fetch = {}
         while len(ops) < length:
@@ -206,7 +207,7 @@ class Gen:
                 for _ in range(r.randint(0, 2)):   # things happen while the controller is down
                     ops.append(r.choice(["n- " + r.choice(NODES), "cc- " + r.choice(CCS),
                                          "n+ %s %s -" % (r.choice(NODES), r.choice(LABELSETS))]))
-                ops.append("construct %s %s -" % self.svc)
+                ops.append("construct %s %s -%s" % (self.svc + ((" " + self.flags) if self.flags else "",)))
                 if r.random() < 0.3:
                     ops.append("n+ %s %s -" % (r.choice(NODES), r.choice(LABELSETS)))
                 ops.append("start")
@@ -636,7 +637,44 @@ def sc_v6_too_big(r):
     return ops
 
 
-SCENARIOS = [sc_replace_cc, sc_stale_fetch, sc_dual_exhaust, sc_faults, sc_cc_retry, sc_restart, sc_cursor, sc_labels, sc_service, sc_preset, sc_terminating_overlap, sc_dual_blocked, sc_bootstrap_unfinalized, sc_replaced_node, sc_sibling_cc, sc_service_release, sc_applied_then_failed, sc_foreign_preset, sc_stale_relabel, sc_bootstrap_pair, sc_v6_too_big]
+def default_flags(r):
+    """the --cluster-cidr / --node-cidr-mask-size* flags: one range, or an IPv4 and an IPv6 one (either order), with
+    mask sizes around the interesting borders (4 host bits, the dual-stack rule)"""
+    a4, l4 = r.choice(V4_RANGES)
+    a6, l6 = r.choice(V6_RANGES)
+    m4 = r.choice([l4 + 1, l4 + 2, 28, 28, 27, 29, 30])
+    m6 = r.choice([l6 + 1, l6 + 2, 124, 124, 123, 125, 100])
+    kind = r.choice(["v4", "v4", "v6", "dual", "dual", "dual6"])
+    if kind == "v4":
+        return "%s=%d" % (tok4(a4, l4), m4)
+    if kind == "v6":
+        return "%s=%d" % (tok6(a6, l6), m6)
+    if kind == "dual":
+        return "%s=%d,%s=%d" % (tok4(a4, l4), m4, tok6(a6, l6), m6)
+    return "%s=%d,%s=%d" % (tok6(a6, l6), m6, tok4(a4, l4), m4)
+
+
+def sc_default_cc(r):
+    """the controller is started with --cluster-cidr: it builds the default ClusterCIDR (no selector) from the flags, creates
+    it -- the write may fail or be applied with an error -- and serves nodes from it; a restart finds the object (or
+    not) and must not add a second one"""
+    flags = default_flags(r)
+    sel, good, bad = _rng_sel_and_labels(r)
+    ops = []
+    if r.random() < 0.5:
+        ops.append("cc+ c1 %s - 4 %s - 1 1" % (tok4(0xc0a80000, 28), sel))
+    ops += ["construct - - %s %s" % (r.choice(["-", "-", "ok,ok", "fail", "ok,fail", "aerr", "ok,aerr"]), flags), "start", "pc ok", "pc ok"]
+    for i in range(1, 4):
+        ops += ["n+ n%d %s -" % (i, r.choice([good, bad, "-"])), "dn", "pn ok"]
+    if r.random() < 0.7:
+        ops += ["crash", "construct - - %s %s" % (r.choice(["-", "-", "fail"]), r.choice([flags, flags, default_flags(r), "-"])), "start", "pc ok", "pc ok"]
+        ops += ["n+ n4 %s -" % good, "dn", "pn ok", "pn ok", "pn ok"]
+    if r.random() < 0.4:
+        ops += ["cc- default-cluster-cidr", "dc", "pc ok", "n- n1", "dn", "pn ok", "tick", "pc ok", "n+ n5 - -", "dn", "pn ok"]
+    return ops
+
+
+SCENARIOS = [sc_default_cc, sc_replace_cc, sc_stale_fetch, sc_dual_exhaust, sc_faults, sc_cc_retry, sc_restart, sc_cursor, sc_labels, sc_service, sc_preset, sc_terminating_overlap, sc_dual_blocked, sc_bootstrap_unfinalized, sc_replaced_node, sc_sibling_cc, sc_service_release, sc_applied_then_failed, sc_foreign_preset, sc_stale_relabel, sc_bootstrap_pair, sc_v6_too_big]
 
 
 def noise_op(r):
